@@ -70,7 +70,8 @@ PROPS["C06"] = {
 PROPS["C15"] = {
     "level": "other",
     "rules": [p_charset.tab_iso, p_charset.tab_dispatch, p_charset.tab_eci,
-              p_panic.residue_rule("decode", owner_filter=lambda o: o.startswith("decodation::eci::") or o == "decodation::read_eci", rule="RESIDUE-ECI"), only(p_charset.str_branch, lambda k: k == "write_eci-iff-some", "ECI header iff requested")],
+              p_panic.residue_rule("decode", owner_filter=lambda o: o.startswith("decodation::eci::") or o == "decodation::read_eci", rule="RESIDUE-ECI"), only(p_charset.str_branch, lambda k: k == "write_eci-iff-some", "ECI header iff requested"),
+              only(p_macro.dec_macro, lambda k: k in ("eci-span", "scenarios"), "character-set span of the macro trailer")],
     "explanation": "Decided in full: the ISO-8859-9/-11 per-byte decision tables composed with the table constants equal the "
                    "standard mappings for all 256 byte values (control/undefined bytes give CharsetError, no index can leave the "
                    "table); the ECI dispatch maps 0/3, 11, 13, 26, 27 to the right decoder and passes 26/27 bytes through unchanged. "
@@ -179,7 +180,8 @@ PROPS["C18"] = {
 
 PROPS["C19"] = {
     "level": "other",
-    "rules": [p_plan.prune_every, p_plan.pigeonhole, p_plan.fanout],
+    "rules": [p_plan.prune_every, p_plan.pigeonhole, p_plan.fanout, only(p_plan.prov_plan, lambda k: k == "optimize-callers", "one planning pass per request"),
+              only(p_modes.fld_enc, lambda k: k.startswith("planned_switches"), "who writes the plan")],
     "explanation": "Decided: the number of candidate-plan steps per input character is bounded by a constant: every main-loop "
                    "iteration prunes (PRUNE-EVERY, THIR structure + MIR must-pass on the loop's back edges); pruning leaves at most "
                    "N = 36 plans by a pigeonhole argument over the occupancy table indexed by start_mode.index()*6+current.index() "
